@@ -5,6 +5,7 @@ import (
 	"context"
 	"errors"
 	"fmt"
+	"strings"
 	"testing"
 	"time"
 
@@ -42,6 +43,8 @@ type faultCase struct {
 	// Prior: kind of an earlier request call on the same client ("" none): success | stall | partial-stall | eof | ioerr
 	Prior      string `json:"prior,omitempty"`
 	PriorShape string `json:"prior_shape,omitempty"` // request of the earlier call: "" same | short | long
+	// WithCause (cancel / deadline faults): the caller's context carries a cause of its own (see cli.Scenario)
+	WithCause bool `json:"with_cause,omitempty"`
 	// ExplicitParser: the client's configuration names the standard response parser explicitly (see cli.Scenario)
 	ExplicitParser bool `json:"explicit_parser,omitempty"`
 	// Over (fault oversize-frame): the transport delivers a structurally well-formed register reply (consistent byte count,
@@ -171,6 +174,7 @@ func prepare(c faultCase) (prep, error) {
 	}
 	sc.Stream, sc.Events = stream, ev
 	sc.ExplicitParser = c.ExplicitParser
+	sc.WithCause = c.WithCause
 	sc.Prior = c.Prior
 	sc.PriorReq = cli.PriorShapeReq(c.PriorShape)
 	if (c.Prior == "stall" || c.Prior == "partial-stall") && sc.ReadTimeoutMs > 100 {
@@ -346,6 +350,9 @@ func genFault(t *rapid.T, kinds []string) faultCase {
 	}
 	c.Fault = rapid.SampledFrom(faults).Draw(t, "fault")
 	c.ExplicitParser = !cli.IsSerial(c.Kind) && rapid.IntRange(0, 3).Draw(t, "explicit_parser") == 0
+	if strings.HasPrefix(c.Fault, "cancel") || strings.HasPrefix(c.Fault, "deadline") {
+		c.WithCause = rapid.Bool().Draw(t, "with_cause")
+	}
 	if c.Fault == "oversize-frame" {
 		c.Over = rapid.SampledFrom([]int{1, 1, 2, 3, 4, 4, 5, 6, 9, 10, 11, 12}).Draw(t, "over")
 	}
@@ -500,6 +507,7 @@ func TestPrefixSweep(t *testing.T) {
 							}
 							c := base
 							c.Fault, c.Prefix = fault, p
+							c.WithCause = idx%2 == 1 && (strings.HasPrefix(fault, "cancel") || strings.HasPrefix(fault, "deadline"))
 							if fault == "oversize-frame" {
 								c.Over = 1 + idx%12
 							}
